@@ -1229,6 +1229,10 @@ func (d *Data) handleMutationsRange(ctx *datastore.VersionedCtx, w http.Response
 		return
 	}
 
+	if len(parts) < 6 {
+		server.BadRequest(w, r, "DVID requires begin and end of range to follow 'mutations-range' command")
+		return
+	}
 	rangefmt := queryStrings.Get("rangefmt")
 	switch rangefmt {
 	default:
